@@ -1,15 +1,12 @@
 import ParryModel.Proto
-import ParryModel.C09.Driver
+import ParryModel.Registry
 /-!
 Line-protocol driver.  stdin: `<prop> <fn> <args…> | <impl output…>`;
 stdout per line: `<model output> | <oracle verdict>`.
 -/
 open Proto
 
-def dispatch (prop fn : String) : Option Handler :=
-  match prop with
-  | "C09" => C09.handler fn
-  | _ => none
+def dispatch (prop fn : String) : Option Handler := Registry.dispatch prop fn
 
 def splitBar (toks : List String) : List String × List String :=
   let pre := toks.takeWhile (· ≠ "|")
